@@ -56,11 +56,12 @@ Inductive result (A : Type) := Ok (a : A) | Oversize.
 Arguments Ok {A} a.
 Arguments Oversize {A}.
 
-(* s_lst.sort(key=lambda x: len(x.forward_cands))  -- stable *)
+(* s_lst.sort(key=lambda x: len(x.forward_cands))  -- stable: an item goes BEFORE the already placed
+   items of equal key (fold_right places the later items first) *)
 Fixpoint insert_i (x : item) (l : list item) : list item :=
   match l with
   | [] => [x]
-  | y :: l' => if (length (snd y) <=? length (snd x))%nat then y :: insert_i x l' else x :: y :: l'
+  | y :: l' => if (length (snd y) <? length (snd x))%nat then y :: insert_i x l' else x :: y :: l'
   end.
 Definition sort_items (l : list item) : list item := fold_right insert_i [] l.
 
